@@ -1111,3 +1111,82 @@ for _i in [1, 2, 3, 4, 5, 6, 7, 8, 10, 11, 12, 13, 14, 15, 16, 17, 18, 19, 20]:
     VARIANTS.append(dict(id="combined-transforms-c%02d" % _i, prop="C%02d" % _i, expect="silent", rule=None,
                          edits=[("@kwargs_calls",), ("@early_exit",), ("@accept_lists",), ("@numpy_alias",), ("@strip_docs_annotate",), ("@logging",)],
                          what="keyword calls + early exits + `import numpy` + annotations + logging + list-accepting prologues, all at once"))
+V("c03-dtype-kind-rejection", "C03", "fire", UT, "    A = (A != 0).astype(int)\n    # Check that there are no undirected edges", "    A = np.asarray(A)\n    if A.dtype.kind not in \"bif\":\n        raise ValueError(\"Expected a boolean, integer or real matrix\")\n    A = (A != 0).astype(int)\n    # Check that there are no undirected edges", rule="TOPO.type-rejection", what="unsigned integer DAGs are rejected, and is_dag reports them as cyclic")
+V("c03-silent-shape-rejection", "C03", "silent", UT, "    A = (A != 0).astype(int)\n    # Check that there are no undirected edges", "    A = np.asarray(A)\n    if A.ndim != 2 or A.shape[0] != A.shape[1]:\n        raise ValueError(\"Expected a square matrix\")\n    A = (A != 0).astype(int)\n    # Check that there are no undirected edges", what="shape validation only")
+V("c17-ratios-renormalised", "C17", "fire", UT, "    n_folds = len(ratios)\n", "    ratios = np.asarray(ratios, dtype=float) / np.sum(ratios)\n    n_folds = len(ratios)\n", rule="SIZE.round", what="ratios rescaled by their float sum: ties n * r = k + 0.5 round the other way when the sum is 0.9999999999999999")
+V("c17-silent-ratios-float-array", "C17", "silent", UT, "    n_folds = len(ratios)\n", "    ratios = np.asarray(ratios, dtype=float)\n    n_folds = len(ratios)\n", what="ratios converted to a float array, same numbers")
+V("c05-pinv-cutoff", "C05", "fire", ND, "        mean = mean_y + cov_yx @ np.linalg.inv(cov_x) @ (x - mean_x)\n        covariance = cov_y - cov_yx @ np.linalg.inv(cov_x) @ cov_xy\n", "        prec = np.linalg.pinv(cov_x, rcond=1e-10, hermitian=True)\n        mean = mean_y + cov_yx @ prec @ (x - mean_x)\n        covariance = cov_y - cov_yx @ prec @ cov_xy\n", rule="FORMULA.conditional.cutoff", what="pseudo-inverse with a relative cut-off: badly scaled conditioning variables are dropped", accept_inconclusive=True)
+V("c05-silent-pinv-plain", "C05", "silent", ND, "        mean = mean_y + cov_yx @ np.linalg.inv(cov_x) @ (x - mean_x)\n        covariance = cov_y - cov_yx @ np.linalg.inv(cov_x) @ cov_xy\n", "        prec = np.linalg.pinv(cov_x)\n        mean = mean_y + cov_yx @ prec @ (x - mean_x)\n        covariance = cov_y - cov_yx @ prec @ cov_xy\n", what="plain pseudo-inverse of an invertible block (equal over the reals)")
+ANM_SIG = "    def sample(self, n, do_interventions={}, shift_interventions={}, noise_interventions={}, random_state=None):"
+V("c02-silent-none-defaults", "C02", "silent", AN, ANM_SIG, "    def sample(self, n, do_interventions=None, shift_interventions=None, noise_interventions=None, random_state=None):",
+  more=[(AN, "        # Set random state (if requested)\n", "        do_interventions = do_interventions or {}\n        shift_interventions = shift_interventions or {}\n        noise_interventions = noise_interventions or {}\n        # Set random state (if requested)\n")],
+  what="mutable default arguments replaced by None + `or {}`")
+V("c13-silent-none-defaults", "C13", "silent", AN, ANM_SIG, "    def sample(self, n, do_interventions=None, shift_interventions=None, noise_interventions=None, random_state=None):",
+  more=[(AN, "        # Set random state (if requested)\n", "        do_interventions = do_interventions or {}\n        shift_interventions = shift_interventions or {}\n        noise_interventions = noise_interventions or {}\n        # Set random state (if requested)\n")],
+  what="mutable default arguments replaced by None + `or {}`")
+V("c14-silent-none-defaults", "C14", "silent", AN, ANM_SIG, "    def sample(self, n, do_interventions=None, shift_interventions=None, noise_interventions=None, random_state=None):",
+  more=[(AN, "        # Set random state (if requested)\n", "        do_interventions = do_interventions or {}\n        shift_interventions = shift_interventions or {}\n        noise_interventions = noise_interventions or {}\n        # Set random state (if requested)\n")],
+  what="mutable default arguments replaced by None + `or {}`")
+LG_SIG = "    def sample(self, n=100, population=False, do_interventions={}, shift_interventions={}, noise_interventions={}, random_state=None):"
+V("c01-silent-none-defaults", "C01", "silent", LG, LG_SIG, "    def sample(self, n=100, population=False, do_interventions=None, shift_interventions=None, noise_interventions=None, random_state=None):", what="None defaults: the blocks already test truthiness")
+V("c04-n-or-default", "C04", "fire", LG, LG_SIG, "    def sample(self, n=None, population=False, do_interventions={}, shift_interventions={}, noise_interventions={}, random_state=None):",
+  more=[(LG, "        # Must copy as they can be changed by interventions, but we\n", "        n = n or 100\n        # Must copy as they can be changed by interventions, but we\n")], rule="FORWARD.n", what="n = 0 becomes 100")
+
+# ------------------------------------------------------------------------------- round 5 (maintenance-style refactors): fire + silent twins
+_KAHN_HEAD = "    A = (A != 0).astype(int)\n    # Check that there are no undirected edges"
+_KAHN_COPY = "    A = A.copy()\n    sinks = list(np.where(A.sum(axis=0) == 0)[0])"
+for _p in ("C03", "C07", "C08", "C10"):
+    V("r5-%s-kahn-consumes-bool" % _p.lower(), _p, "fire", UT, _KAHN_HEAD, "    A = np.asarray(A, dtype=bool)\n    # Check that there are no undirected edges",
+      more=[(UT, _KAHN_COPY, "    sinks = list(np.where(A.sum(axis=0) == 0)[0])")], rule={"C03": "OWN.kahn"}.get(_p, "INTACT"),
+      what="boolean graphs are emptied by the acyclicity gate (asarray returns the caller's array)")
+    V("r5-%s-silent-kahn-no-second-copy" % _p.lower(), _p, "silent", UT, _KAHN_COPY, "    sinks = list(np.where(A.sum(axis=0) == 0)[0])",
+      what="the pattern `(A != 0).astype(int)` is already a private array")
+    V("r5-%s-silent-kahn-array-copy" % _p.lower(), _p, "silent", UT, _KAHN_HEAD, "    A = np.array(A != 0, dtype=int)\n    # Check that there are no undirected edges",
+      more=[(UT, _KAHN_COPY, "    sinks = list(np.where(A.sum(axis=0) == 0)[0])")], what="np.array copies")
+_SKEL = "    return ((A + A.T) != 0).astype(int)\n"
+_SKEL_CACHE = ("    global _last_skeleton\n    if _last_skeleton is not None:\n        last_A, last_S = _last_skeleton\n        if last_A.shape == A.shape and np.array_equal(last_A, A):\n"
+               "            return %s\n    S = ((A + A.T) != 0).astype(int)\n    _last_skeleton = (np.array(A, copy=True), S)\n    return %s\n\n\n_last_skeleton = None\n")
+V("r5-c16-skeleton-cache-shared", "C16", "fire", UT, _SKEL, _SKEL_CACHE % ("last_S", "S"), rule="OWN.moral", what="moral_graph writes into the cached skeleton")
+V("r5-c16-undecided-skeleton-cache-copies", "C16", "undecided", UT, _SKEL, _SKEL_CACHE % ("last_S.copy()", "S.copy()"), what="value-keyed cache handing out copies")
+_VS_LOOP = ("        for (i, j) in itertools.combinations(pa(c, A), 2):\n            if A[i, j] == 0 and A[j, i] == 0:\n                # Ordering might be defensive here, as\n"
+            "                # itertools.combinations already returns ordered\n                # tuples; motivation is to not depend on their feature\n"
+            "                vstruct = (i, c, j) if i < j else (j, c, i)\n                vstructs.append(vstruct)\n")
+_VS_VEC = ("        parents = list(pa(c, A))\n        pairs = cartesian([parents, parents]%s)\n        i, j = pairs[pairs[:, 0] < pairs[:, 1]].T\n"
+           "        unshielded = np.logical_and(A[i, j] == 0, A[j, i] == 0)\n        vstructs += [(a, c, b) for (a, b) in zip(i[unshielded], j[unshielded])]\n")
+V("r5-c16-cartesian-bytes", "C16", "fire", UT, _VS_LOOP, _VS_VEC % "", rule="API.cartesian-dtype", what="node labels above 127 wrap around in the default dtype of cartesian", accept_inconclusive=True)
+_DRF_LOOP = ("            for i in self._ordering:\n                if self._random_forests[i, k] is None:\n                    # Node has no parents, generate a sample using bootstrapping\n"
+             "                    sample[:, i] = _bootstrap(\n                        self._data[k][:, i], n[k], random_state=rng\n                    )\n                else:\n"
+             "                    parents = sempler.utils.pa(i, self.graph)\n                    new_data = pd.DataFrame(sample[:, sorted(parents)])\n"
+             "                    forest = self._random_forests[i, k]\n                    output = forest.predict(n=1, functional=\"sample\", newdata=new_data)\n"
+             "                    sample[:, i] = output.sample[:, 0, 0]\n")
+_DRF_SPLIT = ("            for i in self._sources:\n                sample[:, i] = _bootstrap(self._data[k][:, i], n[k], random_state=rng)\n            for i in self._inner:\n"
+              "                new_data = pd.DataFrame(sample[:, self._parents[i]])\n                forest = self._random_forests[i, k]\n"
+              "                output = forest.predict(n=1, functional=\"sample\", newdata=new_data)\n                sample[:, i] = output.sample[:, 0, 0]\n")
+_DRF_FIT_END = "        ) if verbose else None\n\n    def sample(self, n=None, random_state=None):"
+_DRF_FIT_NEW = ("        ) if verbose else None\n        self._parents = [sorted(sempler.utils.pa(i, self.graph)) for i in range(self.p)]\n"
+                "        self._sources = [i for i in self._ordering if len(self._parents[i]) == 0]\n        self._inner = %s\n\n    def sample(self, n=None, random_state=None):")
+V("r5-c19-inner-setdiff", "C19", "fire", SE, _DRF_LOOP, _DRF_SPLIT, more=[(SE, _DRF_FIT_END, _DRF_FIT_NEW % "np.setdiff1d(self._ordering, self._sources).astype(int)")],
+  rule="ORDER.nodes", what="setdiff1d sorts: children before parents", accept_inconclusive=True)
+V("r5-c19-undecided-inner-filtered", "C19", "undecided", SE, _DRF_LOOP, _DRF_SPLIT, more=[(SE, _DRF_FIT_END, _DRF_FIT_NEW % "[i for i in self._ordering if len(self._parents[i]) > 0]")],
+  what="sources first, then the rest in topological order")
+_RATIO_CHECK = "    if abs(np.sum(ratios) - 1) > 1e-9:\n        raise ValueError(\"The elements in ratios must add up to 1.\")\n"
+V("r5-c17-silent-total-local", "C17", "silent", UT, _RATIO_CHECK, "    ratios = np.asarray(ratios, dtype=float)\n    total = ratios.sum()\n    if abs(total - 1) > 1e-9:\n        raise ValueError(\"The elements in ratios must add up to 1.\")\n",
+  what="sum computed once on the float array")
+V("r5-c17-rescaled-by-total", "C17", "fire", UT, _RATIO_CHECK, "    ratios = np.asarray(ratios, dtype=float)\n    total = ratios.sum()\n    if abs(total - 1) > 1e-9:\n        raise ValueError(\"The elements in ratios must add up to 1.\")\n    ratios = ratios / total\n",
+  rule="SIZE.round", what="rescaled ratios move the rounding ties")
+_SPLIT_LOOP = ("        start = 0\n        for i, ratio in enumerate(ratios):\n            if i < n_folds - 1:\n                fold_size = round(n * ratio)\n"
+               "                fold_sample = sample[start:start + fold_size]\n                start += fold_size\n            else:\n                fold_sample = sample[start::]\n"
+               "            folds[i].append(fold_sample)\n")
+_SPLIT_NP = "        sizes = [round(n * ratio) for ratio in ratios[:-1]]\n        cuts = %s\n        for i, fold_sample in enumerate(np.split(sample, cuts)):\n            folds[i].append(fold_sample)\n"
+V("r5-c17-split-unique-cuts", "C17", "fire", UT, _SPLIT_LOOP, _SPLIT_NP % "np.unique(np.cumsum(sizes, dtype=int))", rule="CONTIG", what="an empty fold removes a cut: the folds shift", accept_inconclusive=True)
+V("r5-c17-undecided-split-cumsum", "C17", "undecided", UT, _SPLIT_LOOP, _SPLIT_NP % "np.cumsum(sizes, dtype=int)", what="np.split at the cumulative sizes: correct, idiom not read")
+_COV = "        covariance = A @ np.diag(variances) @ A.T\n"
+V("r5-c01-silent-cov-broadcast", "C01", "silent", LG, _COV, "        covariance = (A * variances) @ A.T\n", what="A diag(v) written as a broadcast")
+V("r5-c01-cov-zeroed-by-variance", "C01", "fire", LG, _COV, "        covariance = (A * variances) @ A.T\n        constant = variances == 0\n        covariance[constant, :] = 0\n        covariance[:, constant] = 0\n",
+  rule="NODECISION", what="a zero noise variance is not a constant variable: descendants of parents still vary")
+_POOL = ("        remaining_targets = set(range(p))\n        for i, k in enumerate(range(K)):\n            intervention = list(rng.choice(list(remaining_targets), size=sizes[i], replace=False))\n"
+         "            remaining_targets -= set(intervention)\n            interventions.append(intervention)\n")
+V("r5-c12-pool-pop-from-end", "C12", "fire", GE, _POOL, "        pool = list(rng.choice(p, size=max_size * K, replace=False))\n        for k in sizes:\n            interventions.append(pool[-k:])\n            del pool[-k:]\n",
+  rule="SLICE.minus-zero", what="pool[-0:] is the whole pool")
+V("r5-c12-undecided-pool-pop-from-front", "C12", "undecided", GE, _POOL, "        pool = list(rng.choice(p, size=max_size * K, replace=False))\n        for k in sizes:\n            interventions.append(pool[:k])\n            del pool[:k]\n",
+  what="disjoint prefixes of one draw without replacement: correct, but a different algorithm than the rules read")
